@@ -199,12 +199,16 @@ def r08_2(ctx, prog, crate, rec):
         c = [c for c in x.live_calls() if is_rec_call(c)][0]
         srcs = x.prov.op_src(c.args[1], path=(1,))
         ups = {s.a.lstrip("*") for s in srcs if s.kind == "upvar"}
-        ctx.check("barrier" in ups and any(s.kind == "call" and s.a == "std::option::Option::as_ref" for s in srcs), "R08.2",
+        bar_caps = []
+        for cn in x.captures or []:
+            cp = prog.capture_operand(x, cn)
+            if cp and cp[1]["k"] in ("copy", "move") and "std::sync::Barrier" in cp[0].local_ty(cp[1]["p"]["l"]):
+                bar_caps.append(cn)
+        ctx.check(len(bar_caps) == 1 and bar_caps[0].lstrip("*") in ups and any(s.kind == "call" and s.a == "std::option::Option::as_ref" for s in srcs), "R08.2",
                   [x.path, "recorder-gets-the-barrier"], "the recorder's barrier argument derives from %s" % sorted(s.label() for s in srcs), c.line())
         cap = None
-        for cn in x.captures or []:
-            if cn.lstrip("*") == "barrier":
-                cap = prog.capture_operand(x, cn)
+        for cn in bar_caps:
+            cap = prog.capture_operand(x, cn)
         if cap:
             ctx.check(any(s.kind == "call" and s.b == bn.bb for s in cap[0].prov.op_src(cap[1])), "R08.2", [x.path, "captured-barrier-is-this-rounds"],
                       "the captured barrier is not the one created this round", c.line())
@@ -277,7 +281,7 @@ def r08_5(ctx, prog, crate, rec):
                 continue
             due = [s for s in syncs if c.target is not None and s.bb in b.reach([c.target])]
             if not due:
-                ctx.ok("R08.5", "%s|%s|%s|no-wait-due" % (b.path, role, p.label))
+                ctx.ok("R08.5", "sample-recorder|%s|%s|no-wait-due" % (role, p.label))
                 continue
             n += 1
             # unwind path: does it release the peers?
@@ -291,7 +295,7 @@ def r08_5(ctx, prog, crate, rec):
                     t = b.term(x)
                     if t["k"] == "drop" and ("Barrier" in t["ty"] or "Poison" in t["ty"] or "AbortOnDrop" in t["ty"]):
                         released = True
-            ctx.check(released, "R08.5", [b.path, role, p.label, "unwind-strands-peers"],
+            ctx.check(released, "R08.5", ["sample-recorder", role, p.label, "unwind-strands-peers"],
                       "if `%s` panics here (path %s) while a Barrier::wait is still due, the unwinding thread never reaches the barrier and "
                       "releases nobody: with threads > 1 the other threads block forever in Barrier::wait" % (role, p.label), c.line())
     ctx.anchor("R08.5", "user-closure calls with a barrier wait still due", n, 9)
